@@ -133,13 +133,14 @@ class Ctx:
                 with open(tmp, "wb") as f:
                     pickle.dump(data, f, protocol=pickle.HIGHEST_PROTOCOL)
                 os.replace(tmp, path)
-                # keep the cache small: drop entries of other tree digests
-                for old in CACHE.glob(f"ats-{which}-{fault_table}-*.pkl"):
-                    if old != path:
-                        try:
-                            old.unlink()
-                        except OSError:
-                            pass
+                # keep the cache small: only the most recent entries per handler/table survive
+                olds = sorted((o for o in CACHE.glob(f"ats-{which}-{fault_table}-*.pkl") if o != path), key=lambda o: o.stat().st_mtime, reverse=True)
+                for old in olds[5:]:
+                    try:
+                        old.unlink()
+                        old.with_suffix(".lock").unlink()
+                    except OSError:
+                        pass
         self._ats[key] = a
         return a
 
